@@ -25,6 +25,52 @@ class EigHooks(GslHooks):
         self.nonzero = set()  # component symbols that are non-zero in the input class under analysis
         self.witness = None   # concrete values of the component symbols (a member of the class), for order comparisons
         self.witness_used = 0
+        self.nsolve = 0
+
+    @staticmethod
+    def family(data, V, n):
+        """(family, tag, permutation) if the vector holds the symbols <family><tag><pi(k)> and column k of V is column
+        pi(k) of the matching eigenvector symbols; None otherwise.  family 'L' = as the solver returned them, 'LS' =
+        after the trusted ascending sort"""
+        import re
+        perm = []
+        fam = None
+        for k in range(n):
+            x = data.cell(k).value
+            if not isinstance(x, Poly):
+                return None
+            q = x.clean()
+            if len(q.t) != 1:
+                return None
+            (mono, c), = q.t.items()
+            if c != 1 or len(mono) != 1 or mono[0][1] != 1:
+                return None
+            from poly import atom_of
+            a = atom_of(mono[0][0])
+            if a[0] != 'v':
+                return None
+            m = re.match(r'^(LS|LX\d+|L)(_\d+)?(\d+)$', a[1])
+            if not m:
+                return None
+            f = (m.group(1), m.group(2) or '')
+            if fam is None:
+                fam = f
+            elif fam != f:
+                return None
+            perm.append(int(m.group(3)))
+        if fam is None:
+            return None
+        pre = ('V%s' if fam[0] == 'L' else 'W' + fam[0] + '%s')
+        for k in range(n):
+            for r in range(n):
+                e = V.entries.get((r, k))
+                if fam[0] == 'L':
+                    want = CPoly(Poly.var('VR%s_%d_%d' % (fam[1], r, perm[k])), Poly.var('VI%s_%d_%d' % (fam[1], r, perm[k])))
+                else:
+                    want = CPoly(Poly.var('W%sR%s_%d_%d' % (fam[0], fam[1], r, perm[k])), Poly.var('W%sI%s_%d_%d' % (fam[0], fam[1], r, perm[k])))
+                if e is None or not e.equals(want):
+                    return (fam[0], fam[1], perm, 'column %d of the eigenvector matrix is not the eigenvector of eigenvalue %d (entry (%d,%d) is %s)' % (k, k, r, k, e))
+        return (fam[0], fam[1], perm)
 
     def decide_cmp(self, it, op, pa, pb, node):
         # is a component of the input class zero?  (the class fixes which components vanish identically)
@@ -45,13 +91,23 @@ class EigHooks(GslHooks):
                 return 1 if {'<': x < y, '>': x > y, '<=': x <= y, '>=': x >= y, '==': x == y, '!=': x != y}[op] else 0
         return NotImplemented
 
+    def vec_of(self, it, p, node):
+        """(Obj gsl_vector, data region, n) behind a gsl_vector*"""
+        if not isinstance(p, Ptr) or p.region is None or 'gslvec' not in p.region.meta:
+            raise Unsupported('not a gsl_vector at %s' % it.loc(node))
+        o = p.region.cell(0).value
+        return o, o.fields['data'].value.region, p.region.meta['gslvec']
+
     def external_call(self, it, name, node, args, this_cell):
-        if name == 'gsl_vector_alloc':
+        if name in ('gsl_vector_alloc', 'gsl_vector_calloc'):
             n = it.eval(args[0])
             r = Region('gslv#%d' % len(self.vectors), 1, None, 'heap', {'gslvec': n})
-            r.cell(0).value = Obj('gsl_vector')
-            r.cell(0).value.field('size').value = n
-            r.cell(0).value.field('stride').value = 1
+            o = Obj('gsl_vector')
+            data = Region('gslv#%d.data' % len(self.vectors), n, (lambda k: Poly.const(0)) if name.endswith('calloc') else None, 'heap')
+            o.field('size').value = n
+            o.field('stride').value = 1
+            o.field('data').value = Ptr(data, 0)
+            r.cell(0).value = o
             self.vectors.append(r)
             return Ptr(r, 0)
         if name in ('gsl_vector_free', 'gsl_eigen_hermv_free'):
@@ -61,23 +117,86 @@ class EigHooks(GslHooks):
             n = it.eval(args[0])
             r = Region('ws', 1, None, 'heap', {'ws': n})
             r.cell(0).value = Obj('gsl_eigen_hermv_workspace')
+            r.cell(0).value.field('size').value = n
             return Ptr(r, 0)
         if name == 'gsl_eigen_hermv':
             vals = [it.eval(a) for a in args]
             m = matrix_of(vals[0])
+            self.nsolve += 1
+            tag = '' if self.nsolve == 1 else '_%d' % self.nsolve
             self.calls.append(('gsl_eigen_hermv', self.entries_of(m), vals[1], vals[2], vals[3], it.loc(node)))
+            # the trusted outputs: eigenvalue k is the symbol L<k>, its eigenvector the column (VR_r_k + i VI_r_k)_r
+            o, data, n = self.vec_of(it, vals[1], node)
+            for k in range(n):
+                data.cell(k).value = Poly.var('L%s%d' % (tag, k))
+            V = matrix_of(vals[2])
+            for r in range(V.n1):
+                for c in range(V.n2):
+                    V.entries[(r, c)] = CPoly(Poly.var('VR%s_%d_%d' % (tag, r, c)), Poly.var('VI%s_%d_%d' % (tag, r, c)))
             return 0
         if name == 'gsl_eigen_hermv_sort':
             vals = [it.eval(a) for a in args]
             self.calls.append(('gsl_eigen_hermv_sort', vals[0], vals[1], vals[2], it.loc(node)))
+            # the trusted sort of a consistent (values, columns) pair: the result is named LS<k> / WS_r_k (ascending for
+            # type 0); applied to anything else it is not summarised
+            o, data, n = self.vec_of(it, vals[0], node)
+            V = matrix_of(vals[1])
+            fam = self.family(data, V, n)
+            if fam is None and self.nsolve == 0:
+                return 0  # values the path built itself (no solver call): the call is recorded, the contents are judged as built
+            if fam is None or fam[0] != 'L' or fam[2] != list(range(n)):
+                raise Unsupported('gsl_eigen_hermv_sort applied to something that is not the output of the solver at %s' % it.loc(node))
+            kind = 'LS' if vals[2] == 0 else 'LX%s' % vals[2]
+            for k in range(n):
+                data.cell(k).value = Poly.var('%s%s%d' % (kind, fam[1], k))
+            for r in range(V.n1):
+                for c in range(V.n2):
+                    V.entries[(r, c)] = CPoly(Poly.var('W%sR%s_%d_%d' % (kind, fam[1], r, c)), Poly.var('W%sI%s_%d_%d' % (kind, fam[1], r, c)))
             return 0
-        if name in ('gsl_vector_set',):
+        if name == 'gsl_vector_set':
             v = it.eval(args[0])
             i = it.eval(args[1])
             val = it.eval(args[2])
             self.calls.append(('gsl_vector_set', v, it.loc(node)))
+            o, data, n = self.vec_of(it, v, node)
+            if not isinstance(i, int) or not (0 <= i < n):
+                raise IndexViolation('gsl_vector_set(%r) outside a vector of %d' % (i, n), it.loc(node))
+            data.cell(i).value = it.to_poly(val)
             self.vec_writes.setdefault(v.region.name, {})[i] = it.to_poly(val)
             return None
+        if name == 'gsl_vector_get':
+            v = it.eval(args[0])
+            i = it.eval(args[1])
+            o, data, n = self.vec_of(it, v, node)
+            if not isinstance(i, int) or not (0 <= i < n):
+                raise IndexViolation('gsl_vector_get(%r) outside a vector of %d' % (i, n), it.loc(node))
+            x = data.cell(i).value
+            if not isinstance(x, Poly):
+                raise Unsupported('read of an eigenvalue that was never set at %s' % it.loc(node))
+            return x
+        if name == 'gsl_vector_memcpy':
+            d_, s_ = it.eval(args[0]), it.eval(args[1])
+            od, dd, nd = self.vec_of(it, d_, node)
+            os_, ds, ns = self.vec_of(it, s_, node)
+            if nd != ns:
+                raise IndexViolation('gsl_vector_memcpy between vectors of %d and %d' % (nd, ns), it.loc(node))
+            for k in range(ns):
+                dd.cell(k).value = ds.cell(k).value
+            return 0
+        if name in ('gsl_matrix_complex_swap_columns', 'gsl_matrix_complex_swap_rows'):
+            m = matrix_of(it.eval(args[0]))
+            i, j = it.eval(args[1]), it.eval(args[2])
+            cols = name.endswith('columns')
+            for k in range(m.n1 if cols else m.n2):
+                a, b = ((k, i), (k, j)) if cols else ((i, k), (j, k))
+                m.entries[a], m.entries[b] = m.get(*b), m.get(*a)
+            return 0
+        if name == 'gsl_vector_swap_elements':
+            o, data, n = self.vec_of(it, it.eval(args[0]), node)
+            i, j = it.eval(args[1]), it.eval(args[2])
+            x, y = data.cell(i).value, data.cell(j).value
+            data.cell(i).value, data.cell(j).value = y, x
+            return 0
         if name.startswith('std::make_pair') or name.startswith('std::pair<'):
             vals = []
             for a in args:
@@ -154,14 +273,53 @@ def diagonal_witnesses(d, diag_slots):
     return out
 
 
-def judge_path(db, rep, unit, f, d, klass, order, zero, content, S, wit, nbad, site):
-    """one abstract run of GetEigenSystem on an input class (optionally on a concrete member `wit` of it)"""
+class Undecided(Exception):
+    """the abstract run cannot be judged without a concrete instance of the order of the eigenvalues"""
+
+
+def eigen_witnesses(d):
+    """concrete values for the eigenvalues as the solver returns them (L<k>, and those of a second solver call): every
+    order for d <= 4, a selection with long cycles beyond; plus an instance with a tie"""
+    import itertools
+    from mpmath import mpf
+    base = [mpf(3 * k - 4) / 2 for k in range(d)]
+    if d <= 4:
+        orders = list(itertools.permutations(range(d)))
+    else:
+        ident = list(range(d))
+        orders = [tuple(ident), tuple(reversed(ident)), tuple(ident[1:] + ident[:1]), tuple(ident[-1:] + ident[:-1]),
+                  tuple([1, 2, 0] + ident[3:]), tuple([2, 0, 1] + ident[3:]), tuple(ident[:d - 3] + [d - 2, d - 1, d - 3]),
+                  tuple([1, 0] + ident[2:]), tuple([d - 1] + ident[1:d - 1] + [0]), tuple(ident[2:] + ident[:2])]
+    out = []
+    for o in orders:
+        w = {}
+        for k in range(d):
+            for tag in ('', '_2', '_3'):
+                w[('v', 'L%s%d' % (tag, k))] = Poly.const(base[o[k]])
+        out.append(w)
+    w = {}
+    for k in range(d):
+        for tag in ('', '_2', '_3'):
+            w[('v', 'L%s%d' % (tag, k))] = Poly.const(base[min(k, d - 2)] if k != 0 else base[d - 1])  # the last two tie, the largest first
+    out.append(w)
+    return out
+
+
+def judge_path(db, rep, unit, f, d, klass, order, zero, content, S, wit, nbad, site, prior_order=None):
+    """one abstract run of GetEigenSystem on an input class (optionally on a concrete member `wit` of it); with
+    prior_order, the same thread has decomposed the same vector before with that ordering flag (function-local statics
+    are shared between the two calls)"""
     this, reg = make_suv('v', d, 'a', content)
     hooks = EigHooks()
     hooks.nonzero = set('a%d' % k for k in range(d * d) if k not in zero)
     hooks.witness = wit
+    if prior_order is not None:
+        hooks.statics = {}
     it = Interp(unit, hooks)
     try:
+        if prior_order is not None:
+            it.call(f, this, [prior_order])
+            it = Interp(unit, hooks)
         res = it.call(f, this, [order])
     except Thrown as t:
         rep.fail('G.eig.path', site, unit.loc(t.node), 'a decomposition for dimension %d' % d, 'throw: %s' % t.what, f['name'])
@@ -170,9 +328,8 @@ def judge_path(db, rep, unit, f, d, klass, order, zero, content, S, wit, nbad, s
         if nbad:
             rep.notes.append('%s: path not interpretable (%s); closed-form sites already reported' % (site, str(e)[:120]))
             return
-        if wit is None and klass == 'diagonal' and order and 'order is not decidable' in str(e):
-            rep.notes.append('%s: the path orders input-dependent entries itself; judged on the concrete instances of the class' % site)
-            return
+        if 'order is not decidable' in str(e) or 'comparison of' in str(e):
+            raise Undecided(str(e))
         raise
     solver = [c for c in hooks.calls if c[0] == 'gsl_eigen_hermv']
     sorts = [c for c in hooks.calls if c[0] == 'gsl_eigen_hermv_sort']
@@ -185,23 +342,60 @@ def judge_path(db, rep, unit, f, d, klass, order, zero, content, S, wit, nbad, s
     Sin = {rc: CPoly(e.re.subst(mapping), e.im.subst(mapping)) for rc, e in S.entries.items()}
     ok = True
     why = ''
-    if len(solver) == 1:
-        _, entries, evals, evecs, ws, where = solver[0]
-        for (r, c), e in Sin.items():
-            if not entries[(r, c)].equals(e):
-                ok, why = False, 'matrix entry (%d,%d) passed to the solver is %s, not that of the represented matrix' % (r, c, entries[(r, c)])
-                break
-        if ok and not (pf == evals and ps == evecs):
-            ok, why = False, 'the objects returned are not the solver outputs'
-        if ok and hooks.vec_writes.get(evals.region.name):
-            ok, why = False, 'eigenvalues overwritten after the solver call'
-    elif len(solver) == 0:
+    fam = None
+    try:
+        o_, data, n_ = hooks.vec_of(it, pf, None) if isinstance(pf, Ptr) else (None, None, None)
+        V = matrix_of(ps) if ps is not None else None
+    except Unsupported:
+        data, V, n_ = None, None, None
+    if data is not None and V is not None and n_ == d:
+        if any(not isinstance(data.cell(k).value, Poly) for k in range(d)):
+            if solver and wit is None:
+                raise Undecided('eigenvalues depend on a data-dependent branch')
+        fam = EigHooks.family(data, V, d)
+    if solver:
+        # outputs of the trusted solver, possibly copied, possibly permuted (consistently): which call, on which matrix
+        if fam is None:
+            if wit is None and any(isinstance(data.cell(k).value, Poly) and data.cell(k).value.vars() for k in range(d)) and data is not None:
+                pass
+            ok, why = False, 'the values returned are not the eigenvalues and eigenvectors the solver produced (as returned, or consistently reordered)'
+        elif len(fam) == 4:
+            ok, why = False, fam[3]
+        else:
+            idx = 0 if fam[1] == '' else int(fam[1][1:]) - 1
+            if not (0 <= idx < len(solver)):
+                ok, why = False, 'the values returned come from no recorded solver call'
+            else:
+                entries = solver[idx][1]
+                for (r, c), e in Sin.items():
+                    if not entries[(r, c)].equals(e):
+                        ok, why = False, 'matrix entry (%d,%d) passed to the solver is %s, not that of the represented matrix' % (r, c, entries[(r, c)])
+                        break
+            if ok and sorted(fam[2]) != list(range(d)):
+                ok, why = False, 'eigenvalues returned %s: not a permutation of the solver output' % (fam[2],)
+            if ok and order:
+                if fam[0] == 'LS' and fam[2] == list(range(d)):
+                    pass  # sorted ascending by the trusted routine
+                elif fam[0].startswith('LX'):
+                    ok, why = False, 'ordering requested but the outputs were sorted with type %s, not ascending by value' % fam[0][2:]
+                elif fam[0] == 'LS':
+                    ok, why = False, 'the sorted outputs were reordered afterwards: %s' % (fam[2],)
+                else:
+                    # as the solver returned them, reordered by the path itself with permutation fam[2]
+                    if wit is None or ('v', 'L0') not in wit:
+                        if fam[2] == list(range(d)) and not hooks.witness_used:
+                            ok, why = False, 'ordering requested but the outputs are in the order the solver produced them (sort calls: %d)' % len(sorts)
+                        else:
+                            raise Undecided('the path orders the eigenvalues itself')
+                    else:
+                        nums = [wit[('v', 'L%s%d' % (fam[1], j))].const_value() for j in fam[2]]
+                        if any(nums[i] > nums[i + 1] for i in range(d - 1)):
+                            ok, why = False, 'ordering requested: when the solver returns the eigenvalues as %s they are handed back as %s' % (
+                                [str(wit[('v', 'L%s%d' % (fam[1], j))].const_value()) for j in range(d)], [str(x) for x in nums])
+        evals, evecs = pf, ps
+    else:
         # a path that builds the outputs itself: accepted only as the exact decomposition of a diagonal matrix
         wr = hooks.vec_writes.get(pf.region.name, {}) if isinstance(pf, Ptr) and pf.region is not None else {}
-        try:
-            V = matrix_of(ps) if ps is not None else None
-        except Unsupported:
-            V = None
         if klass != 'diagonal' and V is not None and all(
                 V.entries.get((r, c)) is not None and V.entries[(r, c)].equals(CPoly(1 if r == c else 0, 0)) for r in range(d) for c in range(d)):
             rep.fail('G.eig.path', site, unit.loc(f), 'outputs = a valid decomposition of the represented matrix',
@@ -223,31 +417,25 @@ def judge_path(db, rep, unit, f, d, klass, order, zero, content, S, wit, nbad, s
                 break
         if ok and sorted(cols.values()) != list(range(d)):
             ok, why = False, 'eigenvectors are not a permutation of the unit vectors'
-        evals, evecs = pf, ps
-    else:
-        ok, why = False, 'the Hermitian eigensolver is called %d times on this path' % len(solver)
-    if ok and order and len(solver) == 0 and wit is not None and not sorts:
-        # the path ordered the entries itself: on this concrete member of the class the eigenvalues must ascend
-        nums = []
-        for i in range(d):
-            x = wr[i].subst(wit)
-            nums.append(x.const_value() if x.is_const() else None)
-        if any(x is None for x in nums) or any(nums[i] > nums[i + 1] for i in range(d - 1)):
-            ok, why = False, 'ordering requested: on the instance with diagonal %s the eigenvalues come out as %s' % (
-                [str(Sin[(r, r)].re.subst(wit)) for r in range(d)], [str(x) for x in nums])
-    elif ok and order and not (len(sorts) == 1 and sorts[0][1] == evals and sorts[0][2] == evecs and sorts[0][3] == 0):
-        ok, why = False, 'ordering requested but the outputs are not sorted ascending by value on this path (sort calls: %d)' % len(sorts)
-    if ok and not order and sorts:
-        ok, why = False, 'sorted although ordering was not requested'
+        if ok and order and not sorts:
+            if wit is None:
+                raise Undecided('the path orders a diagonal matrix itself')
+            nums = []
+            for i in range(d):
+                x = wr[i].subst(wit)
+                nums.append(x.const_value() if x.is_const() else None)
+            if any(x is None for x in nums) or any(nums[i] > nums[i + 1] for i in range(d - 1)):
+                ok, why = False, 'ordering requested: on the instance with diagonal %s the eigenvalues come out as %s' % (
+                    [str(Sin[(r, r)].re.subst(wit)) for r in range(d)], [str(x) for x in nums])
     if ok and hooks.divisions:
         ok, why = False, 'input-dependent division at %s' % unit.loc(hooks.divisions[0][0])
     if ok:
         rep.ok('G.eig.path')
-        if d == 3 and klass == 'dense':
+        if d == 3 and klass == 'dense' and prior_order is None and wit is None:
             rep.sample('G.eig.path', 'd=3 order=%d: hermv(S_3(c)) -> (eigenvalues, eigenvectors)%s' % (order, ', sorted ascending' if order else ''))
     else:
-        rep.fail('G.eig.path', site, unit.loc(f), 'outputs = a valid decomposition of the represented matrix (Hermitian eigensolver, or exact for a diagonal matrix); sorted ascending iff requested',
-                 why, f['name'])
+        rep.fail('G.eig.path', site, unit.loc(f), 'outputs = a valid decomposition of the represented matrix (outputs of the Hermitian eigensolver for that matrix, '
+                 'consistently ordered, or exact for a diagonal matrix); ascending when ordering is requested', why, f['name'])
 
 
 def run(db, rep, tier):
@@ -278,11 +466,25 @@ def run(db, rep, tier):
                 elif klass == 'real off-diagonal only':
                     zero = set(im_slots)
                 content = lambda k, z=zero: Poly.const(0) if k in z else Poly.var('a%d' % k)
-                # a path that orders the entries of a diagonal matrix itself compares input-dependent numbers: it is
-                # run on several concrete members of the class (different orderings of the diagonal, ties included)
-                witnesses = [None]
-                if klass == 'diagonal' and order:
-                    witnesses = [None] + diagonal_witnesses(d, diag_slots)
-                for wit in witnesses:
-                    judge_path(db, rep, unit, f, d, klass, order, zero, content, S, wit, nbad, site + ('' if wit is None else '/instance%d' % witnesses.index(wit)))
+                # first without a concrete instance; a path that compares input-dependent numbers itself (ordering a
+                # diagonal matrix, or the eigenvalues the solver returned) is then run on concrete instances: several
+                # orders of the diagonal resp. every order of the eigenvalues (ties included)
+                for prior in (None, 1 - order):
+                    if prior is not None and klass != 'dense':
+                        continue
+                    psite = site + ('' if prior is None else '/after the same vector was decomposed with order=%d' % prior)
+                    try:
+                        judge_path(db, rep, unit, f, d, klass, order, zero, content, S, None, nbad, psite, prior)
+                    except Undecided as u:
+                        rep.notes.append('%s: %s; judged on concrete instances' % (psite, str(u)[:100]))
+                        wits = eigen_witnesses(d)
+                        if klass == 'diagonal':
+                            dw = diagonal_witnesses(d, diag_slots)
+                            wits = [{**w, **dw[i % len(dw)]} for i, w in enumerate(wits)] + [{**wits[0], **x} for x in dw]
+                        for wi, wit in enumerate(wits):
+                            try:
+                                judge_path(db, rep, unit, f, d, klass, order, zero, content, S, wit, nbad, psite + '/instance%d' % wi, prior)
+                            except Undecided as u2:
+                                rep.break_('%s: cannot be judged even on a concrete instance (%s)' % (psite, str(u2)[:120]))
+                                break
     rep.floor('G.eig.path', n, 40)
